@@ -20,8 +20,9 @@ kinds, multipath lengths, depth) and for the three type-level switches (malleabi
 branch, non-B), where the step from the library's whole-fragment type to the specification's
 is `typeBridge_of_ranges` (composition of C05's rule-by-rule theorems over the AST; hypothesis:
 thresholds in range, which `Threshold::new` guarantees).  For mixed time locks and
-unsatisfiability the defect is the library's own analysis (`…_model`); the semantic statement
-is `def switch_exact_mixed_time_locks_full`.
+the defect is the library's own analysis (`…_model`), the semantic statement is
+`def switch_exact_mixed_time_locks_full`; for unsatisfiability the defect is the specification's
+satisfaction table with all assets available (`switch_exact_unsatisfiable`).
 
 T1/T4 after the fixes 8a19a019 (base-type test), 4cd8ebfa (`pk_h` keys), a3413640
 (`new_sortedmulti`), 2d0df974 (`Tr::new`), f6816493 (`Wsh::new`/`Sh::new` call `validate`):
@@ -33,6 +34,7 @@ full statements, and the `_partial` theorems saying that nothing else is missing
 -/
 import MsVerif.Lemmas.ValidateCtx
 import MsVerif.Lemmas.ValidateTypes
+import MsVerif.Lemmas.ValidateSat
 
 namespace MsVerif.C12
 open MsVerif MsVerif.Spec ValidationParams
@@ -136,6 +138,13 @@ theorem validate_monotone (env : KeyEnv) (K : KeyInfo) (ctx : Ctx) {p q : Valida
     isOk (validate env K ctx q ms) = true := by
   rw [validate_isOk] at *
   exact validOK_mono ((entails_iff p q).1 h) env K ctx ms hv
+
+/-- gap-5 form: what is accepted under `P ∩ Q` is accepted under `P` and under `Q` -/
+theorem validate_intersect (env : KeyEnv) (K : KeyInfo) (ctx : Ctx) (p q : ValidationParams)
+    (ms : Ms) (hv : isOk (validate env K ctx (p.intersect q) ms) = true) :
+    isOk (validate env K ctx p ms) = true ∧ isOk (validate env K ctx q ms) = true :=
+  ⟨validate_monotone env K ctx (intersect_entails_left p q) ms hv,
+   validate_monotone env K ctx (intersect_entails_right p q) ms hv⟩
 
 example : ValidationParams.SANE.entails .CONSENSUS = true ∧
     ValidationParams.CONSENSUS.entails .SANE = false := by decide
@@ -279,6 +288,16 @@ theorem switch_exact_unsatisfiable_model :
   simp only [validate_isOk, switch_unsatisfiable, D_unsat]
   cases (extOf env ctx ms).satData <;> rfl
 
+/-- `allow_unsatisfiable` at specification level: switching it off rejects exactly the scripts
+for which the specification's table of canonical satisfactions (Spec/SatTable.lean) has NO
+satisfaction even with every signature, preimage, key and lock available.  Hypotheses:
+thresholds in range, and every `thresh` child dissatisfiable (`threshKidsOK`, which the type
+rule of `thresh` — children `Bdu`/`Wdu` — demands). -/
+theorem switch_exact_unsatisfiable (hr : ruleRange ms = true) (hk : threshKidsOK ms = true) :
+    isOk (validate env K ctx { p with allowUnsatisfiable := false } ms)
+      = (isOk (validate env K ctx p ms) && !hasDefect_unsatisfiable ms) := by
+  rw [switch_exact_unsatisfiable_model, satData_isSome_eq_satEx env ctx ms hr hk]
+
 /-- the semantic statement for mixed time locks: exact for scripts without a `0` fragment
 (a `0` under a conjunction makes the library's analysis count a combination no satisfaction
 uses, cf. F10), sound in general.  NOT proved; the judge checks it on every enumerated script. -/
@@ -345,6 +364,14 @@ example : isOk (validate demoEnv demoK .segwitv0 .MAX dupScript) = true ∧
     hasDefect_duplicateKeys dupScript = true ∧
     isOk (validate demoEnv demoK .segwitv0 { ValidationParams.MAX with allowDuplicateKeys := false }
       dupScript) = false := by decide
+/-- `and_v(v:pk(0),0)`: no satisfaction -/
+example : hasDefect_unsatisfiable (.andV (.verify (.check (.pkK 0))) .fls) = true ∧
+    threshKidsOK (.andV (.verify (.check (.pkK 0))) .fls) = true ∧
+    ruleRange (.andV (.verify (.check (.pkK 0))) .fls) = true ∧
+    hasDefect_unsatisfiable dupScript = false ∧
+    threshKidsOK (.thresh 1 (.cons (.check (.pkK 0)) (.cons (.swap (.check (.pkK 1))) .nil))) = true := by
+  simp [hasDefect_unsatisfiable, threshKidsOK, kidsPred, everyNode, everyNodeL, ruleRange, rangeOk,
+    SatTable.satEx, SatTable.dsatEx, SatTable.allDsatEx, allAvail, dupScript]
 example : isOk (validate demoEnv demoK .segwitv0 { ValidationParams.MAX with maxScriptSize := 70 }
       dupScript) = true ∧
     isOk (validate demoEnv demoK .segwitv0 { ValidationParams.MAX with maxScriptSize := 69 }
@@ -552,6 +579,80 @@ example : accepts demoEnv demoK .segwitv0 .wrapper (.check (.pkK 0)) = true ∧
     ctxOK (demoF .segwitv0) .segwitv0 (.check (.pkK 0)) = true ∧
     acceptsSortedMulti demoEnv demoK .segwitv0 1 [0, 1] = true ∧
     acceptsSortedMulti demoEnv demoK .segwitv0 1 [100, 0] = false := by decide
+
+/-! ## key-only descriptors, taproot trees, `decode_with_validation_params` -/
+
+/-- `Pkh::new` / `Wpkh::new` / `Sh::new_wpkh` / `Tr::new(k, None)` / `Descriptor::new_*` and the
+parsers of `pkh(K)`, `wpkh(K)`, `sh(wpkh(K))`, `pk(K)`, `tr(K)` (one model for constructor and
+parser): accepted IF AND ONLY IF the context permits the key's kind -/
+theorem key_only_accepts_iff (K : KeyInfo) (len : Ms → Nat) (d : KeyDesc) (k : Key) :
+    keyOnlyAccepts K d k = keyAllowed (factsFrom K len) d.ctx k :=
+  checkPk_eq K len d.ctx k
+
+/-- `Descriptor::new_pk` cannot report an error: it panics exactly on the keys the bare context
+forbids (x-only keys) -/
+theorem new_pk_panics_iff (K : KeyInfo) (len : Ms → Nat) (k : Key) :
+    keyOnlyOutcome K .pk true k = .panic ↔ keyAllowed (factsFrom K len) .bare k = false := by
+  simp only [keyOnlyOutcome, key_only_accepts_iff K len, KeyDesc.ctx]
+  cases keyAllowed (factsFrom K len) .bare k <;> simp
+
+example : keyOnlyAccepts demoK .wpkh 100 = false ∧ keyOnlyAccepts demoK .wpkh 0 = true ∧
+    keyOnlyAccepts demoK .tr 0 = true ∧ keyOnlyOutcome demoK .pk true 200 = .panic := by decide
+
+/-- multi-leaf `tr`: whatever `TapTree::combine` + `Tr::new`, `Tr::from_str` or
+`Descriptor::from_str` accept has every leaf at depth ≤ 128 and every leaf obeys the Tapscript
+rules -/
+theorem tr_tree_accepts_obeys (env : KeyEnv) (K : KeyInfo) (len : Ms → Nat) (e : Entry)
+    (he : e = .trNew ∨ e = .trFromStr ∨ e = .descFromStr) (t : TapT)
+    (h : trTreeAccepts env K e t = true)
+    (hlen : ∀ m ∈ t.leaves, (extOf env .tap m).pkCost = len m) :
+    tapTreeOK (factsFrom K len) (t.depths 0) t.leaves = true := by
+  simp only [trTreeAccepts, Bool.and_eq_true, decide_eq_true_eq, List.all_eq_true] at h
+  simp only [tapTreeOK, Bool.and_eq_true, List.all_eq_true, decide_eq_true_eq]
+  refine ⟨fun d hd => by have := depths_le_height t 0 d hd; omega, fun m hm => ?_⟩
+  apply accepted_obeys_ctx env K .tap m len e _ _ (h.2 m hm) (hlen m hm)
+  · rcases he with rfl | rfl | rfl <;> decide
+  · rintro ⟨hc, _⟩; cases hc
+
+example : trTreeAccepts demoEnv demoK .trNew
+      (.node (.leaf (.check (.pkK 200))) (.leaf (.check (.pkK 201)))) = true ∧
+    trTreeAccepts demoEnv demoK .trNew (.node (.leaf (.check (.pkK 200))) (.leaf (.pkK 201))) = false := by
+  decide
+
+/-- `decode_with_validation_params(script, p)` is "decode, then `validate(p)`": once the script
+decodes under `MAX`, the verdict under any `p` is the verdict of `validate` on the decoded AST -/
+theorem decode_then_validate (env : KeyEnv) (K : KeyInfo) (ctx : Ctx) (p : ValidationParams)
+    (ms : Ms) (h : decodeAccepts env K ctx .MAX ms = true) :
+    decodeAccepts env K ctx p ms = isOk (validate env K ctx p ms) := by
+  simp only [decodeAccepts, Bool.and_eq_true] at h ⊢
+  simp [h.1]
+
+/-- what the decoder accepts under parameters at least as tight as the context's `CONSENSUS`
+(`decode_consensus`, `decode`, …) obeys every rule of the context — although the decoder
+itself pushes `pk_k` / `multi` / lock leaves unchecked: `validate` makes up for it.
+`hlen`: as in `accepted_obeys_ctx_consensus`. -/
+theorem decode_accepts_obeys_ctx (env : KeyEnv) (K : KeyInfo) (ctx : Ctx) (p : ValidationParams)
+    (ms : Ms) (len : Ms → Nat) (hp : p.entails ctx.CONSENSUS = true)
+    (h : decodeAccepts env K ctx p ms = true) (hlen : (extOf env ctx ms).pkCost = len ms) :
+    ctxOK (factsFrom K len) ctx ms = true := by
+  simp only [decodeAccepts, decConstructed, Bool.and_eq_true, List.all_eq_true] at h
+  obtain ⟨⟨⟨hnodes, hglob⟩, _⟩, hv⟩ := h
+  have hv' : validOK env K ctx ctx.CONSENSUS ms = true := by
+    rw [← validate_isOk]; exact validate_monotone env K ctx hp ms hv
+  obtain ⟨hk, hcond, ty, hty, hB⟩ := validOK_consensus_rules env K ctx len ms hv'
+  have hrange : ruleRange ms = true := by
+    simp only [ruleRange, everyNode_eq, List.all_eq_true]
+    intro m hm; rw [← termNodeOk_eq]; exact (hnodes m hm).1
+  obtain ⟨τ, ht1, ht2, _, _⟩ := typeBridge_of_ranges ctx ms hrange ty hty
+  simp only [ctxOK, ctxFragOK, Bool.and_eq_true]
+  refine ⟨⟨?_, hcond⟩, ⟨⟨⟨⟨hk, validOK_consensus_multi env K ctx ms hv'⟩, hrange⟩, ?_⟩, ?_⟩⟩
+  · simp only [ruleTopB, ht1, ht2, hB]; rfl
+  · simp only [checkGlobalValidity, Bool.and_eq_true] at hglob
+    simp only [ruleSize, factsFrom, decide_eq_true_eq, ← hlen]
+    exact sizeChecked_le _ _ hglob.2
+  · have := validOK_depth env K ctx ctx.CONSENSUS ms hv'
+    have h402 : (ctx.CONSENSUS).maxRecursiveDepth = 402 := by cases ctx <;> rfl
+    simp only [ruleDepth, decide_eq_true_eq]; omega
 
 /-! ## T4 — what the descriptor parser accepts, the miniscript parser with the context's
 consensus parameters accepts -/
